@@ -253,5 +253,47 @@ def sigma_like(e, meth):
     return isinstance(e, ast.Call) and isinstance(e.func, ast.Attribute) and e.func.attr == meth
 
 
+def rule_inverse(repo, tier):
+    res = RuleResult('C13.INV', 'the innovation covariance is inverted exactly: pinv / inv without a truncation tolerance (rtol / atol / rcond), '
+                     'otherwise measurement directions with small innovation variance are silently ignored; a Cholesky factor used to colour '
+                     'row-shaped noise is transposed', floor=2)
+    for mod, q in ((EKF, 'EKF.forward'), (UKF, 'UKF.forward')):
+        f = repo.func(mod, q)
+        calls = [c for c in paths.calls_in(f.node) if (dotted(c.func) or '').split('.')[-1] in ('pinv', 'inv', 'inverse', 'solve', 'lstsq')]
+        if not calls:
+            raise AnalysisError('C13.INV: %s no longer inverts the innovation covariance' % q)
+        for c in calls:
+            tol = [k.arg for k in c.keywords if k.arg in ('rtol', 'atol', 'rcond', 'tol')] + (['positional tolerance'] if len(c.args) > 1 and
+                                                                                           (dotted(c.func) or '').endswith('pinv') else [])
+            res.inst({'function': f.fq, 'site': src(c)[:60], 'truncation': tol}, (f.fq, norm_construct(c, f.node)))
+            if tol:
+                res.add(Finding('C13.INV', f, 'the innovation covariance is inverted with a truncation tolerance (%s): directions whose '
+                                'innovation variance is below the tolerance are dropped from the update' % ', '.join(tol), node=c))
+    # Cholesky-coloured noise in the particle filter (expected count zero today: MultivariateNormal is used)
+    def chol_defects(fnode):
+        out = []
+        inl = inline_straight(fnode)
+        exprs = [v for v in inl.env.values() if isinstance(v, ast.AST)] + [inline_straight(fnode, upto=r).value(r.value) for r in returns_of(fnode) if r.value is not None]
+        for e in exprs:
+            for n in ast.walk(e):
+                if isinstance(n, ast.BinOp) and isinstance(n.op, ast.MatMult):
+                    r = n.right
+                    if isinstance(r, ast.Call) and (dotted(r.func) or '').split('.')[-1] == 'cholesky' and \
+                            not any(k.arg == 'upper' and isinstance(k.value, ast.Constant) and k.value.value is True for k in r.keywords):
+                        out.append(n)
+        return out
+    fx = ast.parse('def g(x, P, N):\n    L = torch.linalg.cholesky(P)\n    z = torch.randn(N, 3)\n    return x + z @ L\n').body[0]
+    if not chol_defects(fx):
+        raise AnalysisError('C13.INV: positive fixture (row noise times untransposed Cholesky factor) not recognised')
+    pfm = repo.module(PF)
+    for q, f in pfm.functions.items():
+        ds = chol_defects(f.node)
+        res.inst({'function': f.fq, 'untransposed_cholesky_products': len(ds)}, f.fq)
+        for n in ds:
+            res.add(Finding('C13.INV', f, '`%s`: rows of noise are multiplied by the lower Cholesky factor L itself; the samples then have '
+                            'covariance L^T L instead of L L^T = P (needs L.mT)' % src(n)[:60], construct='z @ L'))
+    return res
+
+
 def rules(repo, tier):
-    return [rule_innov(repo, tier), rule_gain(repo, tier), rule_xcov(repo, tier), rule_orient(repo, tier), rule_pf(repo, tier)]
+    return [rule_innov(repo, tier), rule_gain(repo, tier), rule_xcov(repo, tier), rule_orient(repo, tier), rule_pf(repo, tier), rule_inverse(repo, tier)]
